@@ -142,7 +142,16 @@ func HarnessC16NoClobber() {
 	for i := 0; i < n; i++ {
 		w.AddRow(map[string]string{"c": "v"})
 	}
+	// the process may be out of file descriptors while Flush runs (every open fails with
+	// EMFILE, whatever the path holds): the existing file must survive that as well
+	exhausted := verifBool("descriptors-exhausted")
+	if exhausted {
+		verifFsFault(true)
+	}
 	err := w.Flush()
+	if exhausted {
+		verifFsFault(false)
+	}
 	verifAssert(err != nil, "C16: Flush onto an existing output path must fail")
 	verifAssert(verifFileVersion(path) == before, "C16: Flush changed a pre-existing file")
 	// a retry on the same writer, and a second writer, meet the same refusal
